@@ -10,28 +10,75 @@ of every iteration.
 namespace Cao.Sim
 open Cao Cao.Vm
 
+/-- which optional card kinds a fragment contains -/
+structure Feat where
+  /-- `Repeat` -/
+  rep : Bool := false
+  /-- `Return` -/
+  ret : Bool := false
+  /-- the functions that may be called: name and declaration -/
+  fns : List (String × Func) := []
+
+/-- the declaration of a function that may be called -/
+def Feat.lookup (ft : Feat) (g : String) : Option Func := (ft.fns.find? (fun p => p.1 == g)).map (·.2)
+
+/-- the arguments of a call: expressions -/
+def isExprs : List Card → Bool
+  | [] => true
+  | e :: es => isExpr e && isExprs es
+
+/-- a static call of one of the functions of `ft`, with as many arguments as it has parameters -/
+def isCall (ft : Feat) : Card → Bool
+  | .call g args =>
+    (match ft.lookup g with
+      | some fd => fd.arguments.length == args.length
+      | none => false) && isExprs args
+  | _ => false
+
+/-- value positions (of `SetVar`, `SetGlobalVar`, `Return`): an expression or a static call -/
+def isVal (ft : Feat) (e : Card) : Bool := isExpr e || isCall ft e
+
+theorem isVal_cases {ft : Feat} {e : Card} (h : isVal ft e = true) :
+    isExpr e = true ∨ ∃ g args, e = .call g args ∧ isCall ft (.call g args) = true := by
+  unfold isVal at h
+  rcases Bool.or_eq_true_iff.1 h with h | h
+  · exact Or.inl h
+  · cases e <;> first | (simp [isCall] at h; done) | exact Or.inr ⟨_, _, rfl, h⟩
+
+/-- the locals in scope in the body of `Repeat`: the hidden `n` and counter, then the loop variable -/
+def repCtx (d : Int) (L : LCtx) (i : Option String) : LCtx :=
+  match i with
+  | some v => L ++ [("", d + 1), ("", d + 1)] ++ [(v, d + 2)]
+  | none => L ++ [("", d + 1), ("", d + 1)]
+
+def optName : Option String → Bool
+  | some v => simpleName v
+  | none => true
+
 mutual
   /-- statements at scope depth `d` with the locals `L` in scope (they declare nothing) -/
-  def isStmtS (d : Int) (L : LCtx) : Card → Bool
-    | .setGlobalVar n e => !n.isEmpty && isExpr e
-    | .setVar n e => simpleName n && (lidx L n).isSome && isExpr e
-    | .bin .ifTrue c b => isExpr c && isStmtS d L b
-    | .bin .ifFalse c b => isExpr c && isStmtS d L b
-    | .bin .while c (.composite _ cs) => isExpr c && isBlock (d + 1) L cs
-    | .tri .ifElse c t e => isExpr c && isStmtS d L t && isStmtS d L e
-    | .composite _ cs => isStmtsS d L cs
+  def isStmtS (ft : Feat) (d : Int) (L : LCtx) : Card → Bool
+    | .setGlobalVar n e => !n.isEmpty && isVal ft e
+    | .setVar n e => simpleName n && (lidx L n).isSome && isVal ft e
+    | .un .ret e => ft.ret && isVal ft e
+    | .bin .ifTrue c b => isExpr c && isStmtS ft d L b
+    | .bin .ifFalse c b => isExpr c && isStmtS ft d L b
+    | .bin .while c (.composite _ cs) => isExpr c && isBlock ft (d + 1) L cs
+    | .repeat i n (.composite _ cs) => ft.rep && isExpr n && optName i && isBlock ft (d + 2) (repCtx d L i) cs
+    | .tri .ifElse c t e => isExpr c && isStmtS ft d L t && isStmtS ft d L e
+    | .composite _ cs => isStmtsS ft d L cs
     | .comment _ => true
     | _ => false
-  def isStmtsS (d : Int) (L : LCtx) : List Card → Bool
+  def isStmtsS (ft : Feat) (d : Int) (L : LCtx) : List Card → Bool
     | [] => true
-    | c :: cs => isStmtS d L c && isStmtsS d L cs
+    | c :: cs => isStmtS ft d L c && isStmtsS ft d L cs
   /-- the cards of a scope at depth `d` -/
-  def isBlock (d : Int) (L : LCtx) : List Card → Bool
+  def isBlock (ft : Feat) (d : Int) (L : LCtx) : List Card → Bool
     | [] => true
     | c :: cs =>
       match declOf L c with
-      | some (n, e) => simpleName n && isExpr e && isBlock d (L ++ [(n, d)]) cs
-      | none => isStmtS d L c && isBlock d L cs
+      | some (n, e) => simpleName n && isVal ft e && isBlock ft d (L ++ [(n, d)]) cs
+      | none => isStmtS ft d L c && isBlock ft d L cs
 end
 
 /-- the locals in scope after the cards of a block -/
@@ -43,14 +90,35 @@ def blockCtx (d : Int) : LCtx → List Card → LCtx
     | none => blockCtx d L cs
 
 section code
-variable (B : Array UInt8) (F : List (UInt32 × Nat))
+variable (B : Array UInt8) (F : List (UInt32 × Nat)) (J : Compiler.JumpTable)
+
+/-- `ReadLocalVar j` at `pc` -/
+def IsRead (pc j : Nat) : Prop := B.getD pc 0 = Compiler.op.readLocalVar ∧ rdU32 B (pc + 1) = j
+/-- `SetLocalVar j` at `pc` -/
+def IsSet (pc j : Nat) : Prop := B.getD pc 0 = Compiler.op.setLocalVar ∧ rdU32 B (pc + 1) = j
+
+/-- the code of the arguments of a call, left to right -/
+def ECodesL (L : LCtx) : List Card → Nat → Nat → Prop
+  | [], pc, pc' => pc' = pc
+  | e :: es, pc, pc' => ∃ m, ECodeL B F L e pc m ∧ ECodesL L es m pc'
+
+/-- the code of a static call: the arguments, `FunctionPointer handle arity`, `CallFunction` -/
+def CCode (L : LCtx) : Card → Nat → Nat → Prop
+  | .call g args, pc, pc' => ∃ m h a, ECodesL B F L args pc m ∧ B.getD m 0 = Compiler.op.functionPointer ∧
+      Compiler.look J g = some (h, a) ∧ rdU32 B (m + 1) = h.toNat ∧ rdU32 B (m + 5) = a.toNat ∧
+      B.getD (m + 9) 0 = Compiler.op.callFunction ∧ pc' = m + 10
+  | _, _, _ => False
+
+/-- the code of a value: an expression or a static call -/
+def VCode (L : LCtx) (e : Card) (pc pc' : Nat) : Prop := ECodeL B F L e pc pc' ∨ CCode B F J L e pc pc'
 
 mutual
   def SCodeS (d : Int) (L : LCtx) : Card → Nat → Nat → Prop
-    | .setGlobalVar n e, pc, pc' => ∃ m id, ECodeL B F L e pc m ∧ B.getD m 0 = Compiler.op.setGlobalVar ∧
+    | .setGlobalVar n e, pc, pc' => ∃ m id, VCode B F J L e pc m ∧ B.getD m 0 = Compiler.op.setGlobalVar ∧
         gidOf F n = some id ∧ rdU32 B (m + 1) = id ∧ pc' = m + 5
-    | .setVar n e, pc, pc' => ∃ m i, lidx L n = some i ∧ ECodeL B F L e pc m ∧
+    | .setVar n e, pc, pc' => ∃ m i, lidx L n = some i ∧ VCode B F J L e pc m ∧
         B.getD m 0 = Compiler.op.setLocalVar ∧ rdU32 B (m + 1) = i ∧ pc' = m + 5
+    | .un .ret e, pc, pc' => ∃ m, VCode B F J L e pc m ∧ B.getD m 0 = Compiler.op.ret ∧ pc' = m + 1
     | .bin .ifTrue c b, pc, pc' => ∃ m, ECodeL B F L c pc m ∧ B.getD m 0 = Compiler.op.gotoIfFalse ∧
         rdU32 B (m + 1) = pc' ∧ SCodeS d L b (m + 5) pc'
     | .bin .ifFalse c b, pc, pc' => ∃ m, ECodeL B F L c pc m ∧ B.getD m 0 = Compiler.op.gotoIfTrue ∧
@@ -61,6 +129,27 @@ mutual
         B.getD (m2 + ((blockCtx (d + 1) L cs).length - L.length)) 0 = Compiler.op.goto ∧
         rdU32 B (m2 + ((blockCtx (d + 1) L cs).length - L.length) + 1) = pc ∧
         pc' = m2 + ((blockCtx (d + 1) L cs).length - L.length) + 5
+    | .repeat i n (.composite _ cs), pc, pc' => ∃ m0 mb m2,
+        ECodeL B F L n pc m0 ∧ IsSet B m0 L.length ∧ ECodeL B F L (.scalarInt 0) (m0 + 5) (m0 + 14) ∧
+        IsSet B (m0 + 14) (L.length + 1) ∧
+        IsRead B (m0 + 19) (L.length + 1) ∧ IsRead B (m0 + 24) L.length ∧
+        B.getD (m0 + 29) 0 = Compiler.op.less ∧ B.getD (m0 + 30) 0 = Compiler.op.gotoIfFalse ∧
+        rdU32 B (m0 + 31) = pc' - 2 ∧
+        (match i with
+          | some _ => IsRead B (m0 + 35) (L.length + 1) ∧ IsSet B (m0 + 40) (L.length + 2) ∧ mb = m0 + 45
+          | none => mb = m0 + 35) ∧
+        BCodes (d + 2) (repCtx d L i) cs mb m2 ∧
+        (∀ j, j < (blockCtx (d + 2) (repCtx d L i) cs).length - (L.length + 2) →
+          B.getD (m2 + j) 0 = Compiler.op.pop) ∧
+        ECodeL B F L (.scalarInt 1) (m2 + ((blockCtx (d + 2) (repCtx d L i) cs).length - (L.length + 2)))
+          (m2 + ((blockCtx (d + 2) (repCtx d L i) cs).length - (L.length + 2)) + 9) ∧
+        IsRead B (m2 + ((blockCtx (d + 2) (repCtx d L i) cs).length - (L.length + 2)) + 9) (L.length + 1) ∧
+        B.getD (m2 + ((blockCtx (d + 2) (repCtx d L i) cs).length - (L.length + 2)) + 14) 0 = Compiler.op.add ∧
+        IsSet B (m2 + ((blockCtx (d + 2) (repCtx d L i) cs).length - (L.length + 2)) + 15) (L.length + 1) ∧
+        B.getD (m2 + ((blockCtx (d + 2) (repCtx d L i) cs).length - (L.length + 2)) + 20) 0 = Compiler.op.goto ∧
+        rdU32 B (m2 + ((blockCtx (d + 2) (repCtx d L i) cs).length - (L.length + 2)) + 21) = m0 + 19 ∧
+        B.getD (pc' - 2) 0 = Compiler.op.pop ∧ B.getD (pc' - 1) 0 = Compiler.op.pop ∧
+        pc' = m2 + ((blockCtx (d + 2) (repCtx d L i) cs).length - (L.length + 2)) + 27
     | .tri .ifElse c t e, pc, pc' => ∃ m1 m2, ECodeL B F L c pc m1 ∧ B.getD m1 0 = Compiler.op.gotoIfFalse ∧
         rdU32 B (m1 + 1) = m2 + 5 ∧ SCodeS d L t (m1 + 5) m2 ∧ B.getD m2 0 = Compiler.op.goto ∧
         rdU32 B (m2 + 1) = pc' ∧ SCodeS d L e (m2 + 5) pc'
@@ -75,7 +164,7 @@ mutual
     | [], pc, pc' => pc' = pc
     | c :: cs, pc, pc' =>
       match declOf L c with
-      | some (n, e) => ∃ m, ECodeL B F L e pc m ∧ B.getD m 0 = Compiler.op.setLocalVar ∧
+      | some (n, e) => ∃ m, VCode B F J L e pc m ∧ B.getD m 0 = Compiler.op.setLocalVar ∧
           rdU32 B (m + 1) = L.length ∧ BCodes d (L ++ [(n, d)]) cs (m + 5) pc'
       | none => ∃ m, SCodeS d L c pc m ∧ BCodes d L cs m pc'
 end
@@ -167,14 +256,14 @@ variable (B : Array UInt8) (F : List (UInt32 × Nat)) (hB : B.size < 4294967296)
 include hB hF
 set_option linter.unusedSectionVars false
 
-theorem whileCodeS_spec {L new : LCtx} {d : Int} {c b : Card} (PB : Nat → Nat → Prop)
+theorem whileCodeS_spec {L new : LCtx} {d : Int} {J : JumpTable} {c b : Card} (PB : Nat → Nat → Prop)
     (hnew : ∀ p ∈ new, p.2 = d + 1)
     (ihb : ∀ s s', processCard b s = .ok ((), s') → LInv s L → curDepth s = d + 1 → s.scopeDepth ≠ [] →
-      AgreeFrom B s' s.bytecode.size → (∃ t, F = s'.varIds ++ t) →
+      s.jumpTable = J → AgreeFrom B s' s.bytecode.size → (∃ t, F = s'.varIds ++ t) →
       LInv s' (L ++ new) ∧ PB s.bytecode.size s'.bytecode.size)
     (hc : isExpr c = true) {s0 s' : CState}
     (h : whileCode (processCard c) (processCard b) s0 = .ok ((), s')) (hl : LInv s0 L)
-    (hd : curDepth s0 = d) (hsd : s0.scopeDepth ≠ [])
+    (hd : curDepth s0 = d) (hsd : s0.scopeDepth ≠ []) (hj : s0.jumpTable = J)
     (hag : AgreeFrom B s' s0.bytecode.size) (hv : ∃ t, F = s'.varIds ++ t) :
     LInv s' L ∧ ∃ m1 m2, ECodeL B F L c s0.bytecode.size m1 ∧ B.getD m1 0 = op.gotoIfFalse ∧
       Vm.rdU32 B (m1 + 1) = s'.bytecode.size ∧ PB (m1 + 5) m2 ∧
@@ -241,6 +330,7 @@ theorem whileCodeS_spec {L new : LCtx} {d : Int} {c b : Card} (PB : Nat → Nat 
   have hsd3b : s3b.scopeDepth ≠ [] := by
     rw [dsb, hsd3]; exact depthUp_ne_nil hsd
   obtain ⟨hl6, hcb⟩ := ihb s3b s6 h9 hl3b hd3b hsd3b
+    (by rw [(kp_run scopeBegin_kp h8b).jt, l3.jt, l2.jt, l1.jt, ql1.jt, la.jt]; exact hj)
     (by
       rw [e3b]
       refine hag.sub (by omega) (by omega) fun i hi hi' => ?_
@@ -300,19 +390,250 @@ theorem blockCtx_ext (d : Int) : ∀ (cs : List Card) (L : LCtx),
       · rfl
       · exact h2 p hp
 
-section
-variable (B : Array UInt8) (F : List (UInt32 × Nat)) (hB : B.size < 4294967296)
+/-! ## the code of a static call in a value position -/
+
+section callx
+variable (B : Array UInt8) (F : List (UInt32 × Nat)) (J : JumpTable) (hB : B.size < 4294967296)
   (hF : ∀ p ∈ F, p.2 < 4294967296)
-include hB hF
+include hF
+
+theorem ecodesL_of_compileSubexprFrom (L : LCtx) (hL : L.length < 4294967296) :
+    ∀ (args : List Card), isExprs args = true → ∀ (k : Nat) (s s' : CState),
+      compileSubexprFrom k args s = .ok ((), s') → LInv s L →
+      AgreeFrom B s' s.bytecode.size → (∃ t, F = s'.varIds ++ t) →
+      QL s s' ∧ ECodesL B F L args s.bytecode.size s'.bytecode.size
+  | [] => by
+    intro _ k s s' h hl _ _
+    simp only [compileSubexprFrom, pure_run, Except.ok.injEq, Prod.mk.injEq, true_and] at h
+    subst h
+    exact ⟨QL.refl _, by simp only [ECodesL]⟩
+  | c :: cs => by
+    intro hc k s s' h hl hag hv
+    simp only [isExprs, Bool.and_eq_true] at hc
+    simp only [compileSubexprFrom] at h
+    obtain ⟨_, s1', h2, h3⟩ := bind_ok.1 h
+    obtain ⟨sa, s1, h4, ba, la, va, b1, l1, v1⟩ := withSub_ok' h2
+    have esa : sa.bytecode.size = s.bytecode.size := by rw [ba]
+    have hsz1 := processCard_size_le h4
+    have hext := ((compileSubexprFrom_mono (k := s1'.bytecode.size) (k + 1) cs).run _ _ _ h3 (Nat.le_refl _)).1
+    have hvr := (compileSubexprFrom_vr (k + 1) cs).run _ _ _ h3
+    obtain ⟨ql1, hcc⟩ := ecodeL_of_processCard B F hF L hL c hc.1 sa s1 h4 (hl.of_ql la)
+      (by
+        rw [esa]
+        refine hag.sub (Nat.le_refl _) (by rw [← b1]; exact hext.size_le) fun i _ hi => ?_
+        rw [hext.pref i (by rw [b1]; exact hi), b1])
+      (by
+        obtain ⟨t, ht⟩ := vpre_back hv hvr
+        exact ⟨t, by rw [ht, v1.ids]⟩)
+    obtain ⟨ql2, hcs⟩ := ecodesL_of_compileSubexprFrom L hL cs hc.2 (k + 1) s1' s' h3
+      (((hl.of_ql la).of_ql ql1).of_ql l1) (by rw [b1]; exact hag.weaken (by omega)) hv
+    refine ⟨((la.trans ql1).trans l1).trans ql2, ?_⟩
+    simp only [ECodesL]
+    rw [esa] at hcc
+    rw [b1] at hcs
+    exact ⟨_, hcc, hcs⟩
+
+omit hF in
+theorem exprs_ql (L : LCtx) : ∀ (args : List Card), isExprs args = true → ∀ (k : Nat) (s s' : CState),
+    compileSubexprFrom k args s = .ok ((), s') → LInv s L → QL s s'
+  | [] => by
+    intro _ k s s' h _
+    simp only [compileSubexprFrom, pure_run, Except.ok.injEq, Prod.mk.injEq, true_and] at h
+    subst h
+    exact QL.refl _
+  | c :: cs => by
+    intro hc k s s' h hl
+    simp only [isExprs, Bool.and_eq_true] at hc
+    simp only [compileSubexprFrom] at h
+    obtain ⟨_, s1', h2, h3⟩ := bind_ok.1 h
+    obtain ⟨sa, s1, h4, ba, la, va, b1, l1, v1⟩ := withSub_ok' h2
+    have ql1 := expr_ql L c hc.1 sa s1 h4 (hl.of_ql la)
+    have ql2 := exprs_ql L cs hc.2 (k + 1) s1' s' h3 (((hl.of_ql la).of_ql ql1).of_ql l1)
+    exact ((la.trans ql1).trans l1).trans ql2
+
+omit hF in
+theorem resolveSpec_look {jt : JumpTable} {ns : List String} {imports : List (String × String)} {g : String}
+    {r : UInt32 × UInt32} (h : look jt g = some r) : resolveSpec jt ns imports g = .ok r := by
+  simp [resolveSpec, resolveWith, stepThen, h]
+
+omit hF in
+/-- what `Call g args` appends after the code of the arguments -/
+theorem callCode_tail {g : String} {s s' : CState} {r : UInt32 × UInt32} (hr : look s.jumpTable g = some r)
+    (h : (do pushInstr op.functionPointer; encodeJump g; pushInstr op.callFunction : CM Unit) s = .ok ((), s')) :
+    s'.bytecode = ((s.bytecode.push op.functionPointer ++ (le32 r.1).toArray) ++ (le32 r.2).toArray).push op.callFunction ∧
+      QL s s' ∧ QV s s' := by
+  obtain ⟨_, s1, h1, h⟩ := bind_ok.1 h
+  obtain ⟨_, s2, h2, h3⟩ := bind_ok.1 h
+  obtain ⟨b1, l1, v1⟩ := pushInstr_ok h1
+  obtain ⟨b3, l3, v3⟩ := pushInstr_ok h3
+  rw [encodeJump_run, resolveSpec_look (by rw [l1.jt]; exact hr)] at h2
+  obtain ⟨h, a⟩ := r
+  simp only [Except.ok.injEq, Prod.mk.injEq, true_and] at h2
+  subst h2
+  refine ⟨by rw [b3]; simp only [b1], l1.trans ⟨l3.locals, l3.fid, l3.depth, l3.jt⟩,
+    v1.trans ⟨v3.ids, v3.next, v3.data⟩⟩
+
+omit hF in
+theorem call_bytes (a : Array UInt8) (o o2 : UInt8) (xs ys : List UInt8) (hx : xs.length = 4) (hy : ys.length = 4) :
+    let arr := ((a.push o ++ xs.toArray) ++ ys.toArray).push o2
+    arr.size = a.size + 10 ∧ arr.getD a.size 0 = o ∧
+    (∀ i, i < 4 → arr.getD (a.size + 1 + i) 0 = xs.getD i 0) ∧
+    (∀ i, i < 4 → arr.getD (a.size + 5 + i) 0 = ys.getD i 0) ∧
+    arr.getD (a.size + 9) 0 = o2 ∧ ∀ i, i < a.size → arr[i]? = a[i]? := by
+  intro arr
+  have e : arr = (a.toList ++ (o :: (xs ++ (ys ++ [o2])))).toArray := by
+    apply Array.ext'
+    simp [arr]
+  have hg : ∀ k, arr.getD (a.size + k) 0 = (o :: (xs ++ (ys ++ [o2]))).getD k 0 := by
+    intro k
+    rw [e, Array.getD_eq_getD_getElem?, List.getElem?_toArray, List.getElem?_append_right (by simp),
+      List.getD_eq_getElem?_getD]
+    simp
+  refine ⟨by rw [e]; simp [hx, hy], ?_, ?_, ?_, ?_, ?_⟩
+  · have := hg 0; simpa using this
+  · intro i hi
+    have := hg (1 + i)
+    rw [← Nat.add_assoc] at this
+    rw [this, show 1 + i = i + 1 by omega, List.getD_cons_succ, List.getD_eq_getElem?_getD,
+      List.getElem?_append_left (by omega), List.getD_eq_getElem?_getD]
+  · intro i hi
+    have := hg (5 + i)
+    rw [← Nat.add_assoc] at this
+    rw [this, show 5 + i = (4 + i) + 1 by omega, List.getD_cons_succ, List.getD_eq_getElem?_getD,
+      List.getElem?_append_right (by omega), List.getElem?_append_left (by omega), List.getD_eq_getElem?_getD]
+    congr 2; omega
+  · have := hg 9
+    rw [this, show (9 : Nat) = 8 + 1 by rfl, List.getD_cons_succ, List.getD_eq_getElem?_getD,
+      List.getElem?_append_right (by omega), List.getElem?_append_right (by omega)]
+    simp [hx, hy]
+  · intro i hi
+    rw [e, List.getElem?_toArray, List.getElem?_append_left (by simpa using hi)]
+    simp
+
+omit hF in
+theorem call_ql (ft : Feat) (L : LCtx) {g : String} {args : List Card} (hc : isCall ft (.call g args) = true)
+    {sa s1 : CState} (h : processCard (.call g args) sa = .ok ((), s1)) (hl : LInv sa L) : QL sa s1 := by
+  simp only [isCall, Bool.and_eq_true] at hc
+  simp only [processCard] at h
+  obtain ⟨_, s0, h0, h⟩ := bind_ok.1 h
+  obtain ⟨b0, l0, v0⟩ := cardLabel_ok' h0
+  unfold callCode at h
+  obtain ⟨_, s2, h2, h⟩ := bind_ok.1 h
+  have ql2 := exprs_ql L args hc.2 0 s0 s2 h2 (hl.of_ql l0)
+  obtain ⟨_, s3, h3, h⟩ := bind_ok.1 h
+  obtain ⟨_, s4, h4, h5⟩ := bind_ok.1 h
+  obtain ⟨b3, l3, v3⟩ := pushInstr_ok h3
+  obtain ⟨b5, l5, v5⟩ := pushInstr_ok h5
+  rw [encodeJump_run] at h4
+  have l4 : QL s3 s4 := by
+    cases hr : resolveSpec s3.jumpTable s3.ns s3.imports g with
+    | error k => rw [hr] at h4; cases h4
+    | ok r =>
+      obtain ⟨x, y⟩ := r
+      rw [hr] at h4
+      simp only [Except.ok.injEq, Prod.mk.injEq, true_and] at h4
+      subst h4
+      exact ⟨rfl, rfl, rfl, rfl⟩
+  exact (((l0.trans ql2).trans l3).trans l4).trans l5
+
+/-- the code of `Call g args` in the final program -/
+theorem ccode_of_processCard (ft : Feat) (L : LCtx) (hL : L.length < 4294967296) {g : String} {args : List Card}
+    (hc : isCall ft (.call g args) = true) (hJ : ∃ r, look J g = some r)
+    {sa s1 : CState} (h : processCard (.call g args) sa = .ok ((), s1)) (hl : LInv sa L)
+    (hj : sa.jumpTable = J) (hag : AgreeFrom B s1 sa.bytecode.size) (hv : ∃ t, F = s1.varIds ++ t) :
+    CCode B F J L (.call g args) sa.bytecode.size s1.bytecode.size := by
+  simp only [isCall, Bool.and_eq_true] at hc
+  obtain ⟨r, hr⟩ := hJ
+  simp only [processCard] at h
+  obtain ⟨_, s0, h0, h⟩ := bind_ok.1 h
+  obtain ⟨b0, l0, v0⟩ := cardLabel_ok' h0
+  unfold callCode at h
+  obtain ⟨_, s2, h2, h⟩ := bind_ok.1 h
+  have ql2 := exprs_ql L args hc.2 0 s0 s2 h2 (hl.of_ql l0)
+  obtain ⟨bt, lt, vt⟩ := callCode_tail (g := g) (s := s2) (s' := s1) (r := r)
+    (by rw [ql2.jt, l0.jt, hj]; exact hr) h
+  have hx : (le32 r.1).length = 4 := le32_length _
+  have hy : (le32 r.2).length = 4 := le32_length _
+  obtain ⟨c1, c2, c3, c4, c5, c6⟩ := call_bytes s2.bytecode op.functionPointer op.callFunction (le32 r.1) (le32 r.2) hx hy
+  rw [← bt] at c1 c2 c3 c4 c5 c6
+  have hsz2 := ((compileSubexprFrom_mono (k := s0.bytecode.size) 0 args).run _ _ _ h2 (Nat.le_refl _)).1.size_le
+  have e0 : s0.bytecode.size = sa.bytecode.size := by rw [b0]
+  obtain ⟨_, hcs⟩ := ecodesL_of_compileSubexprFrom B F hF L hL args hc.2 0 s0 s2 h2 (hl.of_ql l0)
+    (by
+      rw [e0]
+      exact hag.sub (Nat.le_refl _) (by omega) fun i _ hi => c6 i hi)
+    (vpre_eq hv vt.ids)
+  rw [e0] at hcs
+  simp only [CCode]
+  refine ⟨s2.bytecode.size, r.1, r.2, hcs, ?_, hr, ?_, ?_, ?_, by omega⟩
+  · rw [hag.getD (by omega) (by omega)]; exact c2
+  · exact Sim.rdU32_eq _ _ _ fun i hi => by rw [hag.getD (by omega) (by omega)]; exact c3 i hi
+  · exact Sim.rdU32_eq _ _ _ fun i hi => by rw [hag.getD (by omega) (by omega)]; exact c4 i hi
+  · rw [hag.getD (by omega) (by omega)]; exact c5
+
+omit hF in
+/-- a value card leaves the scoping bookkeeping alone -/
+theorem val_ql (ft : Feat) (L : LCtx) {e : Card} (he : isVal ft e = true) {sa s1 : CState}
+    (h : processCard e sa = .ok ((), s1)) (hl : LInv sa L) : QL sa s1 := by
+  rcases isVal_cases he with he | ⟨g, args, rfl, hc⟩
+  · exact expr_ql L e he sa s1 h hl
+  · exact call_ql ft L hc h hl
+
+/-- the code of a value card in the final program -/
+theorem vcode_of_processCard (ft : Feat) (hJ : ∀ g fd, ft.lookup g = some fd → ∃ r, look J g = some r)
+    (L : LCtx) (hL : L.length < 4294967296) {e : Card} (he : isVal ft e = true) {sa s1 : CState}
+    (h : processCard e sa = .ok ((), s1)) (hl : LInv sa L) (hj : sa.jumpTable = J)
+    (hag : AgreeFrom B s1 sa.bytecode.size) (hv : ∃ t, F = s1.varIds ++ t) :
+    VCode B F J L e sa.bytecode.size s1.bytecode.size := by
+  rcases isVal_cases he with he | ⟨g, args, rfl, hc⟩
+  · exact Or.inl (ecodeL_of_processCard B F hF L hL e he sa s1 h hl hag hv).2
+  · refine Or.inr (ccode_of_processCard B F J hF ft L hL hc ?_ h hl hj hag hv)
+    have hc' := hc
+    simp only [isCall, Bool.and_eq_true] at hc'
+    rcases hlk : ft.lookup g with _ | fd
+    · rw [hlk] at hc'; exact absurd hc'.1 (by simp)
+    · exact hJ g fd hlk
+
+end callx
+
+
+/-- what the extraction of the code of a `Repeat` card has to provide (given the extraction for the
+    cards of its body); proved in `SimRepeat.lean`, trivial for fragments without `Repeat` -/
+def RepX (B : Array UInt8) (F : List (UInt32 × Nat)) (J : JumpTable) (ft : Feat) : Prop :=
+  ∀ (d : Int) (L : LCtx) (i : Option String) (n : Card) (ty : String) (cs : List Card),
+    (∀ (L' : LCtx) (k : Nat) (s s' : CState), isBlock ft (d + 2) L' cs = true →
+      compileSubexprFrom k cs s = .ok ((), s') → LInv s L' → curDepth s = d + 2 → s.scopeDepth ≠ [] →
+      s.jumpTable = J → AgreeFrom B s' s.bytecode.size → (∃ t, F = s'.varIds ++ t) →
+      LInv s' (blockCtx (d + 2) L' cs) ∧ BCodes B F J (d + 2) L' cs s.bytecode.size s'.bytecode.size) →
+    isStmtS ft d L (.repeat i n (.composite ty cs)) = true →
+    ∀ (s s' : CState), processCard (.repeat i n (.composite ty cs)) s = .ok ((), s') → LInv s L →
+      curDepth s = d → s.scopeDepth ≠ [] → s.jumpTable = J → AgreeFrom B s' s.bytecode.size →
+      (∃ t, F = s'.varIds ++ t) →
+      LInv s' L ∧ SCodeS B F J d L (.repeat i n (.composite ty cs)) s.bytecode.size s'.bytecode.size
+
+/-- the handler for all final programs -/
+def RepXAll (ft : Feat) : Prop :=
+  ∀ (B : Array UInt8) (F : List (UInt32 × Nat)) (J : JumpTable), B.size < 4294967296 →
+    (∀ p ∈ F, p.2 < 4294967296) → RepX B F J ft
+
+theorem repX_false {ft : Feat} (h : ft.rep = false) : RepXAll ft := by
+  intro B F J _ _ d L i n ty cs _ hs
+  simp [isStmtS, h] at hs
+
+section
+variable (B : Array UInt8) (F : List (UInt32 × Nat)) (J : JumpTable) (hB : B.size < 4294967296)
+  (hF : ∀ p ∈ F, p.2 < 4294967296) (ft : Feat) (hrepX : RepX B F J ft)
+  (hJ : ∀ g fd, ft.lookup g = some fd → ∃ r, look J g = some r)
+include hB hF hrepX hJ
 
 set_option linter.unusedSectionVars false in
 mutual
 theorem scodeS_of_processCard (d : Int) (L : LCtx) :
-    ∀ (c : Card), isStmtS d L c = true → ∀ (s s' : CState), processCard c s = .ok ((), s') → LInv s L → curDepth s = d → s.scopeDepth ≠ [] →
+    ∀ (c : Card), isStmtS ft d L c = true → ∀ (s s' : CState), processCard c s = .ok ((), s') → LInv s L → curDepth s = d → s.scopeDepth ≠ [] → s.jumpTable = J →
       AgreeFrom B s' s.bytecode.size → (∃ t, F = s'.varIds ++ t) →
-      LInv s' L ∧ SCodeS B F d L c s.bytecode.size s'.bytecode.size
+      LInv s' L ∧ SCodeS B F J d L c s.bytecode.size s'.bytecode.size
   | .comment _ => by
-    intro _ s s' h hl hd hsd hag hv
+    intro _ s s' h hl hd hsd hj hag hv
     simp only [processCard] at h
     obtain ⟨_, s0, h0, h1⟩ := bind_ok.1 h
     obtain ⟨b0, l0, v0⟩ := cardLabel_ok' h0
@@ -320,17 +641,18 @@ theorem scodeS_of_processCard (d : Int) (L : LCtx) :
     subst h1
     exact ⟨hl.of_ql l0, by simp only [SCodeS]; rw [b0]⟩
   | .composite _ cs => by
-    intro hc s s' h hl hd hsd hag hv
+    intro hc s s' h hl hd hsd hj hag hv
     simp only [isStmtS] at hc
     simp only [processCard] at h
     obtain ⟨_, s0, h0, h1⟩ := bind_ok.1 h
     obtain ⟨b0, l0, v0⟩ := cardLabel_ok' h0
     have := scodesS_of_compileSubexprFrom d L cs hc 0 s0 s' h1 (hl.of_ql l0)
-      (by unfold curDepth at hd ⊢; rw [l0.depth]; exact hd) (by rw [l0.depth]; exact hsd) (by rw [b0]; exact hag) hv
+      (by unfold curDepth at hd ⊢; rw [l0.depth]; exact hd) (by rw [l0.depth]; exact hsd) (by rw [l0.jt]; exact hj)
+      (by rw [b0]; exact hag) hv
     rw [b0] at this
     exact ⟨this.1, by simp only [SCodeS]; exact this.2⟩
   | .setGlobalVar n e => by
-    intro hc s s' h hl hd hsd hag hv
+    intro hc s s' h hl hd hsd hj hag hv
     simp only [isStmtS, Bool.and_eq_true, Bool.not_eq_true'] at hc
     obtain ⟨hne, he⟩ := hc
     simp only [processCard] at h
@@ -350,7 +672,9 @@ theorem scodeS_of_processCard (d : Int) (L : LCtx) :
     have hb' : s'.bytecode = s1.bytecode.push op.setGlobalVar ++ (le32 (UInt32.ofNat id)).toArray := by
       rw [b4, b3, b2, b1]
     have hvr := (globalId_vr n).run _ _ _ h7
-    obtain ⟨ql1, hce⟩ := ecodeL_of_processCard B F hF L (by have := hl.len; omega) e he sa s1 h4 (hl.of_ql (l0.trans la))
+    have ql1 := val_ql ft L he h4 (hl.of_ql (l0.trans la))
+    have hce := vcode_of_processCard B F J hF ft hJ L (by have := hl.len; omega) he h4 (hl.of_ql (l0.trans la))
+      (by rw [la.jt, l0.jt]; exact hj)
       (by
         rw [esa]
         refine hag.sub (Nat.le_refl _) (by rw [hb']; simp) fun i _ hi => ?_
@@ -380,59 +704,62 @@ theorem scodeS_of_processCard (d : Int) (L : LCtx) :
     · exact rdU32_patched hlt (fun j hj => a2 j (by rw [le32_length]; exact hj))
     · rw [a3, le32_length]
   | .setVar n e => by
-    intro hc s s' h hl hd hsd hag hv
+    intro hc s s' h hl hd hsd hj hag hv
     simp only [isStmtS, Bool.and_eq_true] at hc
     obtain ⟨⟨hn, hsome⟩, he⟩ := hc
-    obtain ⟨m, k1, k2, k3, k4, k5⟩ := setVar_spec B F hB hF hn he h hl hag hv
+    obtain ⟨m, k1, k2, k3, k4, k5⟩ := setVar_specV B F hB hF (VCode B F J L e)
+      (fun sa' s1' h' hl' => val_ql ft L he h' hl')
+      (fun sa' s1' h' hl' hj' hag' hv' => vcode_of_processCard B F J hF ft hJ L (by have := hl.len; omega) he h' hl'
+        (by rw [hj']; exact hj) hag' hv') hn h hl hag hv
     rcases hli : lidx L n with _ | i
     · rw [hli] at hsome; cases hsome
     · rw [hli] at k5
       exact ⟨k5.2, by simp only [SCodeS]; exact ⟨m, i, hli, k1, k2, k5.1, k3⟩⟩
   | .bin .ifTrue c b => by
-    intro hc s s' h hl hd hsd hag hv
+    intro hc s s' h hl hd hsd hj hag hv
     simp only [isStmtS, Bool.and_eq_true] at hc
     simp only [processCard] at h
     obtain ⟨_, s0, h0, h1⟩ := bind_ok.1 h
     obtain ⟨b0, l0, v0⟩ := cardLabel_ok' h0
-    have := ifCodeL_spec B F hB hF (SCodeS B F d L b) (fun s s' h hl hsd' => scodeS_of_processCard d L b hc.2 s s' h hl (by unfold curDepth at hd ⊢; rw [hsd', l0.depth]; exact hd) (by rw [hsd', l0.depth]; exact hsd)) hc.1
+    have := ifCodeL_spec B F hB hF (SCodeS B F J d L b) (fun s s' h hl hsd' hj' => scodeS_of_processCard d L b hc.2 s s' h hl (by unfold curDepth at hd ⊢; rw [hsd', l0.depth]; exact hd) (by rw [hsd', l0.depth]; exact hsd) hj') hc.1
       (show ifCode op.gotoIfFalse (processCard c) (processCard b) s0 = .ok ((), s') from h1)
-      (hl.of_ql l0) rfl (by rw [b0]; exact hag) hv
+      (hl.of_ql l0) rfl (by rw [l0.jt]; exact hj) (by rw [b0]; exact hag) hv
     rw [b0] at this
     obtain ⟨hl', m, q1, q2, q3, q4⟩ := this
     exact ⟨hl', by simp only [SCodeS]; exact ⟨m, q1, q2, q3, q4⟩⟩
   | .bin .ifFalse c b => by
-    intro hc s s' h hl hd hsd hag hv
+    intro hc s s' h hl hd hsd hj hag hv
     simp only [isStmtS, Bool.and_eq_true] at hc
     simp only [processCard] at h
     obtain ⟨_, s0, h0, h1⟩ := bind_ok.1 h
     obtain ⟨b0, l0, v0⟩ := cardLabel_ok' h0
-    have := ifCodeL_spec B F hB hF (SCodeS B F d L b) (fun s s' h hl hsd' => scodeS_of_processCard d L b hc.2 s s' h hl (by unfold curDepth at hd ⊢; rw [hsd', l0.depth]; exact hd) (by rw [hsd', l0.depth]; exact hsd)) hc.1
+    have := ifCodeL_spec B F hB hF (SCodeS B F J d L b) (fun s s' h hl hsd' hj' => scodeS_of_processCard d L b hc.2 s s' h hl (by unfold curDepth at hd ⊢; rw [hsd', l0.depth]; exact hd) (by rw [hsd', l0.depth]; exact hsd) hj') hc.1
       (show ifCode op.gotoIfTrue (processCard c) (processCard b) s0 = .ok ((), s') from h1)
-      (hl.of_ql l0) rfl (by rw [b0]; exact hag) hv
+      (hl.of_ql l0) rfl (by rw [l0.jt]; exact hj) (by rw [b0]; exact hag) hv
     rw [b0] at this
     obtain ⟨hl', m, q1, q2, q3, q4⟩ := this
     exact ⟨hl', by simp only [SCodeS]; exact ⟨m, q1, q2, q3, q4⟩⟩
   | .bin .while c (.composite ty cs) => by
-    intro hc s s' h hl hd hsd hag hv
+    intro hc s s' h hl hd hsd hj hag hv
     simp only [isStmtS, Bool.and_eq_true] at hc
     simp only [processCard] at h
     obtain ⟨_, s0, h0, h1⟩ := bind_ok.1 h
     obtain ⟨b0, l0, v0⟩ := cardLabel_ok' h0
     obtain ⟨new, hnew1, hnew2⟩ := blockCtx_ext (d + 1) cs L
-    have := whileCodeS_spec B F hB hF (L := L) (new := new) (d := d) (BCodes B F (d + 1) L cs) hnew2
-      (fun s1 s1' h' hl' hd' hsd' hag' hv' => by
+    have := whileCodeS_spec B F hB hF (L := L) (new := new) (d := d) (BCodes B F J (d + 1) L cs) hnew2
+      (fun s1 s1' h' hl' hd' hsd' hj' hag' hv' => by
         have h'' : (cardLabel >>= fun _ => compileSubexprFrom 0 cs) s1 = .ok ((), s1') := h'
         obtain ⟨_, s2, h2, h3⟩ := bind_ok.1 h''
         obtain ⟨b2, l2, v2⟩ := cardLabel_ok' h2
         have := bcodes_of_compileSubexprFrom (d + 1) cs L hc.2 0 s2 s1' h3 (hl'.of_ql l2)
           (by unfold curDepth at hd' ⊢; rw [l2.depth]; exact hd') (by rw [l2.depth]; exact hsd')
-          (by rw [b2]; exact hag') hv'
+          (by rw [l2.jt]; exact hj') (by rw [b2]; exact hag') hv'
         rw [b2, hnew1] at this
         exact this)
       hc.1
       (show whileCode (processCard c) (processCard (.composite ty cs)) s0 = .ok ((), s') from h1)
       (hl.of_ql l0) (by unfold curDepth at hd ⊢; rw [l0.depth]; exact hd) (by rw [l0.depth]; exact hsd)
-      (by rw [b0]; exact hag) hv
+      (by rw [l0.jt]; exact hj) (by rw [b0]; exact hag) hv
     rw [b0] at this
     obtain ⟨hl', m1, m2, q1, q2, q3, q4, q5, q6, q7, q8⟩ := this
     have hk : (blockCtx (d + 1) L cs).length - L.length = new.length := by rw [hnew1]; simp
@@ -440,16 +767,16 @@ theorem scodeS_of_processCard (d : Int) (L : LCtx) :
     simp only [SCodeS, hk]
     exact ⟨m1, m2, q1, q2, q3, q4, q5, q6, q7, q8⟩
   | .tri .ifElse c t e => by
-    intro hc s s' h hl hd hsd hag hv
+    intro hc s s' h hl hd hsd hj hag hv
     simp only [isStmtS, Bool.and_eq_true] at hc
     simp only [processCard] at h
     obtain ⟨_, s0, h0, h1⟩ := bind_ok.1 h
     obtain ⟨b0, l0, v0⟩ := cardLabel_ok' h0
-    have := ifElseCodeL_spec B F hB hF (SCodeS B F d L t) (SCodeS B F d L e)
-      (fun s s' h hl hsd' => scodeS_of_processCard d L t hc.1.2 s s' h hl (by unfold curDepth at hd ⊢; rw [hsd', l0.depth]; exact hd) (by rw [hsd', l0.depth]; exact hsd))
-      (fun s s' h hl hsd' => scodeS_of_processCard d L e hc.2 s s' h hl (by unfold curDepth at hd ⊢; rw [hsd', l0.depth]; exact hd) (by rw [hsd', l0.depth]; exact hsd)) hc.1.1
+    have := ifElseCodeL_spec B F hB hF (SCodeS B F J d L t) (SCodeS B F J d L e)
+      (fun s s' h hl hsd' hj' => scodeS_of_processCard d L t hc.1.2 s s' h hl (by unfold curDepth at hd ⊢; rw [hsd', l0.depth]; exact hd) (by rw [hsd', l0.depth]; exact hsd) hj')
+      (fun s s' h hl hsd' hj' => scodeS_of_processCard d L e hc.2 s s' h hl (by unfold curDepth at hd ⊢; rw [hsd', l0.depth]; exact hd) (by rw [hsd', l0.depth]; exact hsd) hj') hc.1.1
       (show ifElseCode (processCard c) (processCard t) (processCard e) s0 = .ok ((), s') from h1)
-      (hl.of_ql l0) rfl (by rw [b0]; exact hag) hv
+      (hl.of_ql l0) rfl (by rw [l0.jt]; exact hj) (by rw [b0]; exact hag) hv
     rw [b0] at this
     obtain ⟨hl', m1, m2, q1, q2, q3, q4, q5, q6, q7⟩ := this
     exact ⟨hl', by simp only [SCodeS]; exact ⟨m1, m2, q1, q2, q3, q4, q5, q6, q7⟩⟩
@@ -463,24 +790,65 @@ theorem scodeS_of_processCard (d : Int) (L : LCtx) :
   | .bin .add _ _ | .bin .sub _ _ | .bin .mul _ _ | .bin .div _ _ | .bin .less _ _ | .bin .lessOrEq _ _
   | .bin .equals _ _ | .bin .notEquals _ _ | .bin .and _ _ | .bin .or _ _ | .bin .xor _ _
   | .bin .getProperty _ _ | .bin .get _ _ | .bin .appendTable _ _
-  | .un _ _ | .tri .setProperty _ _ _ | .scalarNil | .createTable | .abort | .scalarInt _ | .scalarFloat _
+  | .un .not _ | .un .len _ | .un .popTable _ | .tri .setProperty _ _ _ | .scalarNil | .createTable | .abort | .scalarInt _ | .scalarFloat _
   | .stringLiteral _ | .function _ | .nativeFunction _ | .readVar _ | .callNative _ _
-  | .call _ _ | .repeat _ _ _ | .forEach _ _ _ _ _ | .dynamicCall _ _ | .array _ | .closure _ _ => by
+  | .call _ _ | .forEach _ _ _ _ _ | .dynamicCall _ _ | .array _ | .closure _ _
+  | .repeat _ _ (.bin _ _ _) | .repeat _ _ (.un _ _) | .repeat _ _ (.tri _ _ _ _) | .repeat _ _ .scalarNil
+  | .repeat _ _ .createTable | .repeat _ _ .abort | .repeat _ _ (.scalarInt _) | .repeat _ _ (.scalarFloat _)
+  | .repeat _ _ (.stringLiteral _) | .repeat _ _ (.comment _) | .repeat _ _ (.function _)
+  | .repeat _ _ (.nativeFunction _) | .repeat _ _ (.readVar _) | .repeat _ _ (.setVar _ _)
+  | .repeat _ _ (.setGlobalVar _ _) | .repeat _ _ (.callNative _ _) | .repeat _ _ (.call _ _)
+  | .repeat _ _ (.repeat _ _ _) | .repeat _ _ (.forEach _ _ _ _ _) | .repeat _ _ (.dynamicCall _ _)
+  | .repeat _ _ (.array _) | .repeat _ _ (.closure _ _) => by
     intro hc
     simp [isStmtS] at hc
+  | .un .ret e => by
+    intro hc s s' h hl hd hsd hj hag hv
+    simp only [isStmtS, Bool.and_eq_true] at hc
+    obtain ⟨_, he⟩ := hc
+    simp only [processCard] at h
+    obtain ⟨_, s0, h0, h1⟩ := bind_ok.1 h
+    obtain ⟨b0, l0, v0⟩ := cardLabel_ok' h0
+    unfold unCode at h1
+    obtain ⟨_, s1', h2, h3⟩ := bind_ok.1 h1
+    obtain ⟨sa, s1, h4, ba, la, va, b1, l1, v1⟩ := withSub_ok' h2
+    obtain ⟨b3, l3, v3⟩ := pushInstr_ok h3
+    have esa : sa.bytecode.size = s.bytecode.size := by rw [ba, b0]
+    have hsz1 := processCard_size_le h4
+    have hb' : s'.bytecode = s1.bytecode.push op.ret := by rw [b3, b1]; rfl
+    have hla : LInv sa L := hl.of_ql (l0.trans la)
+    have ql1 := val_ql ft L he h4 hla
+    have hce := vcode_of_processCard B F J hF ft hJ L (by have := hl.len; omega) he h4 hla
+      (by rw [la.jt, l0.jt]; exact hj)
+      (by
+        rw [esa]
+        refine hag.sub (Nat.le_refl _) (by rw [hb']; simp) fun i _ hi => ?_
+        rw [hb', Array.getElem?_push_lt hi]; simp)
+      (vpre_eq (vpre_eq hv v3.ids) v1.ids)
+    obtain ⟨a1, a3⟩ := agree_op hb' hag (by omega)
+    refine ⟨(hla.of_ql ql1).of_ql (l1.trans l3), ?_⟩
+    simp only [SCodeS]
+    rw [esa] at hce
+    exact ⟨_, hce, a1, a3⟩
+  | .repeat i n (.composite ty cs) => by
+    intro hc s s' h hl hd hsd hj hag hv
+    exact hrepX d L i n ty cs
+      (fun L' k s1 s1' hb h1 hl1 hd1 hsd1 hj1 hag1 hv1 =>
+        bcodes_of_compileSubexprFrom (d + 2) cs L' hb k s1 s1' h1 hl1 hd1 hsd1 hj1 hag1 hv1)
+      hc s s' h hl hd hsd hj hag hv
 
 theorem scodesS_of_compileSubexprFrom (d : Int) (L : LCtx) :
-    ∀ (cs : List Card), isStmtsS d L cs = true → ∀ (i : Nat) (s s' : CState),
-      compileSubexprFrom i cs s = .ok ((), s') → LInv s L → curDepth s = d → s.scopeDepth ≠ [] →
+    ∀ (cs : List Card), isStmtsS ft d L cs = true → ∀ (i : Nat) (s s' : CState),
+      compileSubexprFrom i cs s = .ok ((), s') → LInv s L → curDepth s = d → s.scopeDepth ≠ [] → s.jumpTable = J →
       AgreeFrom B s' s.bytecode.size → (∃ t, F = s'.varIds ++ t) →
-      LInv s' L ∧ SCodesS B F d L cs s.bytecode.size s'.bytecode.size
+      LInv s' L ∧ SCodesS B F J d L cs s.bytecode.size s'.bytecode.size
   | [] => by
-    intro _ i s s' h hl _ _ _ _
+    intro _ i s s' h hl _ _ _ _ _
     simp only [compileSubexprFrom, pure_run, Except.ok.injEq, Prod.mk.injEq, true_and] at h
     subst h
     exact ⟨hl, by simp only [SCodesS]⟩
   | c :: cs => by
-    intro hc i s s' h hl hd hsd hag hv
+    intro hc i s s' h hl hd hsd hj hag hv
     simp only [isStmtsS, Bool.and_eq_true] at hc
     simp only [compileSubexprFrom] at h
     obtain ⟨_, s1', h2, h3⟩ := bind_ok.1 h
@@ -492,6 +860,7 @@ theorem scodesS_of_compileSubexprFrom (d : Int) (L : LCtx) :
     have hbal := processCard_balanced (c := c) (s := sa) (s' := s1) h4 (hl.of_ql la).locals_ne
     obtain ⟨hl1, hcc⟩ := scodeS_of_processCard d L c hc.1 sa s1 h4 (hl.of_ql la)
       (by unfold curDepth at hd ⊢; rw [la.depth]; exact hd) (by rw [la.depth]; exact hsd)
+      (by rw [la.jt]; exact hj)
       (by
         rw [esa]
         refine hag.sub (Nat.le_refl _) (by rw [← b1]; exact hext.size_le) fun i _ hi => ?_
@@ -502,6 +871,7 @@ theorem scodesS_of_compileSubexprFrom (d : Int) (L : LCtx) :
     obtain ⟨hl2, hcs⟩ := scodesS_of_compileSubexprFrom d L cs hc.2 (i + 1) s1' s' h3 (hl1.of_ql l1)
       (by unfold curDepth at hd ⊢; rw [l1.depth, hbal.scopeDepth, la.depth]; exact hd)
       (by rw [l1.depth, hbal.scopeDepth, la.depth]; exact hsd)
+      (by rw [l1.jt, (kp_run (processCard_kp c) h4).jt, la.jt]; exact hj)
       (by rw [b1]; exact hag.weaken (by omega)) hv
     refine ⟨hl2, ?_⟩
     simp only [SCodesS]
@@ -509,17 +879,17 @@ theorem scodesS_of_compileSubexprFrom (d : Int) (L : LCtx) :
     rw [b1] at hcs
     exact ⟨_, hcc, hcs⟩
 theorem bcodes_of_compileSubexprFrom (d : Int) :
-    ∀ (cs : List Card) (L : LCtx), isBlock d L cs = true → ∀ (i : Nat) (s s' : CState),
-      compileSubexprFrom i cs s = .ok ((), s') → LInv s L → curDepth s = d → s.scopeDepth ≠ [] →
+    ∀ (cs : List Card) (L : LCtx), isBlock ft d L cs = true → ∀ (i : Nat) (s s' : CState),
+      compileSubexprFrom i cs s = .ok ((), s') → LInv s L → curDepth s = d → s.scopeDepth ≠ [] → s.jumpTable = J →
       AgreeFrom B s' s.bytecode.size → (∃ t, F = s'.varIds ++ t) →
-      LInv s' (blockCtx d L cs) ∧ BCodes B F d L cs s.bytecode.size s'.bytecode.size
+      LInv s' (blockCtx d L cs) ∧ BCodes B F J d L cs s.bytecode.size s'.bytecode.size
   | [], L => by
-    intro _ i s s' h hl _ _ _ _
+    intro _ i s s' h hl _ _ _ _ _
     simp only [compileSubexprFrom, pure_run, Except.ok.injEq, Prod.mk.injEq, true_and] at h
     subst h
     exact ⟨hl, by simp only [BCodes]⟩
   | c :: cs, L => by
-    intro hc i s s' h hl hd hsd hag hv
+    intro hc i s s' h hl hd hsd hj hag hv
     simp only [compileSubexprFrom] at h
     obtain ⟨_, s1', h2, h3⟩ := bind_ok.1 h
     obtain ⟨sa, s1, h4, ba, la, va, b1, l1, v1⟩ := withSub_ok' h2
@@ -527,6 +897,8 @@ theorem bcodes_of_compileSubexprFrom (d : Int) :
     have hla : LInv sa L := hl.of_ql la
     have hda : curDepth sa = d := by unfold curDepth at hd ⊢; rw [la.depth]; exact hd
     have hsda : sa.scopeDepth ≠ [] := by rw [la.depth]; exact hsd
+    have hja : sa.jumpTable = J := by rw [la.jt]; exact hj
+    have hj1 : s1'.jumpTable = J := by rw [l1.jt, (kp_run (processCard_kp c) h4).jt]; exact hja
     have hsz1 := processCard_size_le h4
     have hext := ((compileSubexprFrom_mono (k := s1'.bytecode.size) (i + 1) cs).run _ _ _ h3 (Nat.le_refl _)).1
     have hvr := (compileSubexprFrom_vr (i + 1) cs).run _ _ _ h3
@@ -544,20 +916,23 @@ theorem bcodes_of_compileSubexprFrom (d : Int) :
     simp only [blockCtx, BCodes]
     rcases hdecl : declOf L c with _ | ⟨n, e⟩
     · simp only [hdecl, Bool.and_eq_true] at hc ⊢
-      obtain ⟨hl1, hcc⟩ := scodeS_of_processCard d L c hc.1 sa s1 h4 hla hda hsda hag1 hv1
-      obtain ⟨hl2, hcs⟩ := bcodes_of_compileSubexprFrom d cs L hc.2 (i + 1) s1' s' h3 (hl1.of_ql l1) hd1 hsd1
+      obtain ⟨hl1, hcc⟩ := scodeS_of_processCard d L c hc.1 sa s1 h4 hla hda hsda hja hag1 hv1
+      obtain ⟨hl2, hcs⟩ := bcodes_of_compileSubexprFrom d cs L hc.2 (i + 1) s1' s' h3 (hl1.of_ql l1) hd1 hsd1 hj1
         (by rw [b1]; exact hag.weaken (by omega)) hv
       rw [esa] at hcc
       rw [b1] at hcs
       exact ⟨hl2, _, hcc, hcs⟩
     · simp only [hdecl, Bool.and_eq_true] at hc ⊢
       obtain ⟨rfl, hnone⟩ := declOf_some hdecl
-      obtain ⟨m, k1, k2, k3, k4, k5⟩ := setVar_spec B F hB hF hc.1.1 hc.1.2 h4 hla hag1 hv1
+      obtain ⟨m, k1, k2, k3, k4, k5⟩ := setVar_specV B F hB hF (VCode B F J L e)
+        (fun sa' s1' h' hl' => val_ql ft L hc.1.2 h' hl')
+        (fun sa' s1' h' hl' hj' hag' hv' => vcode_of_processCard B F J hF ft hJ L (by have := hla.len; omega) hc.1.2 h' hl'
+          (by rw [hj']; exact hja) hag' hv') hc.1.1 h4 hla hag1 hv1
       rw [hnone] at k5
       simp only at k5
       rw [hda] at k5
       obtain ⟨hl2, hcs⟩ := bcodes_of_compileSubexprFrom d cs (L ++ [(n, d)]) hc.2 (i + 1) s1' s' h3
-        (k5.2.of_ql l1) hd1 hsd1 (by rw [b1]; exact hag.weaken (by omega)) hv
+        (k5.2.of_ql l1) hd1 hsd1 hj1 (by rw [b1]; exact hag.weaken (by omega)) hv
       rw [esa] at k1
       rw [b1, k3] at hcs
       exact ⟨hl2, m, k1, k2, k5.1, hcs⟩
@@ -570,22 +945,23 @@ namespace Cao.Compiler
 open Cao Cao.Sim
 
 section
-variable (B : Array UInt8) (F : List (UInt32 × Nat)) (hB : B.size < 4294967296)
-  (hF : ∀ p ∈ F, p.2 < 4294967296)
-include hB hF
+variable (B : Array UInt8) (F : List (UInt32 × Nat)) (J : JumpTable) (hB : B.size < 4294967296)
+  (hF : ∀ p ∈ F, p.2 < 4294967296) (ft : Feat) (hrepX : RepX B F J ft)
+  (hJ : ∀ g fd, ft.lookup g = some fd → ∃ r, look J g = some r)
+include hB hF hrepX hJ
 
 theorem bcodes_of_processFunctionCards (d : Int) :
-    ∀ (cs : List Card) (L : LCtx), isBlock d L cs = true → ∀ (i : Nat) (s s' : CState),
-      processFunctionCards i cs s = .ok ((), s') → LInv s L → curDepth s = d → s.scopeDepth ≠ [] →
+    ∀ (cs : List Card) (L : LCtx), isBlock ft d L cs = true → ∀ (i : Nat) (s s' : CState),
+      processFunctionCards i cs s = .ok ((), s') → LInv s L → curDepth s = d → s.scopeDepth ≠ [] → s.jumpTable = J →
       AgreeFrom B s' s.bytecode.size → (∃ t, F = s'.varIds ++ t) →
-      LInv s' (blockCtx d L cs) ∧ s'.scopeDepth = s.scopeDepth ∧ BCodes B F d L cs s.bytecode.size s'.bytecode.size
+      LInv s' (blockCtx d L cs) ∧ s'.scopeDepth = s.scopeDepth ∧ BCodes B F J d L cs s.bytecode.size s'.bytecode.size
   | [], L => by
-    intro _ i s s' h hl hd _ _ _
+    intro _ i s s' h hl hd _ _ _ _
     simp only [processFunctionCards, pure_run, Except.ok.injEq, Prod.mk.injEq, true_and] at h
     subst h
     exact ⟨hl, rfl, by simp only [BCodes]⟩
   | c :: cs, L => by
-    intro hc i s s' h hl hd hsd hag hv
+    intro hc i s s' h hl hd hsd hj hag hv
     simp only [processFunctionCards] at h
     obtain ⟨_, sa, h1, h⟩ := bind_ok.1 h
     obtain ⟨ba, la, va⟩ := popSub_ok h1
@@ -605,22 +981,27 @@ theorem bcodes_of_processFunctionCards (d : Int) :
     have hd1 : curDepth s1 = d := by unfold curDepth at hdb ⊢; rw [hbal.scopeDepth]; exact hdb
     have hsdb : sb.scopeDepth ≠ [] := by rw [lb.depth, la.depth]; exact hsd
     have hsd1 : s1.scopeDepth ≠ [] := by rw [hbal.scopeDepth]; exact hsdb
+    have hjb : sb.jumpTable = J := by rw [lb.jt, la.jt]; exact hj
+    have hj1 : s1.jumpTable = J := by rw [(kp_run (processCard_kp c) h4).jt]; exact hjb
     simp only [isBlock] at hc
     simp only [blockCtx, BCodes]
     rcases hdecl : declOf L c with _ | ⟨n, e⟩
     · simp only [hdecl, Bool.and_eq_true] at hc ⊢
-      obtain ⟨hl1, hcc⟩ := scodeS_of_processCard B F hB hF d L c hc.1 sb s1 h4 hlb hdb hsdb hag1 (vpre_back hv hvr)
-      obtain ⟨hl2, hd2, hcs⟩ := bcodes_of_processFunctionCards d cs L hc.2 (i + 1) s1 s' h3 hl1 hd1 hsd1
+      obtain ⟨hl1, hcc⟩ := scodeS_of_processCard B F J hB hF ft hrepX hJ d L c hc.1 sb s1 h4 hlb hdb hsdb hjb hag1 (vpre_back hv hvr)
+      obtain ⟨hl2, hd2, hcs⟩ := bcodes_of_processFunctionCards d cs L hc.2 (i + 1) s1 s' h3 hl1 hd1 hsd1 hj1
         (hag.weaken (by omega)) hv
       rw [esb] at hcc
       exact ⟨hl2, by rw [hd2, hbal.scopeDepth, lb.depth, la.depth], _, hcc, hcs⟩
     · simp only [hdecl, Bool.and_eq_true] at hc ⊢
       obtain ⟨rfl, hnone⟩ := declOf_some hdecl
-      obtain ⟨m, k1, k2, k3, k4, k5⟩ := setVar_spec B F hB hF hc.1.1 hc.1.2 h4 hlb hag1 (vpre_back hv hvr)
+      obtain ⟨m, k1, k2, k3, k4, k5⟩ := setVar_specV B F hB hF (VCode B F J L e)
+        (fun sa' s1' h' hl' => val_ql ft L hc.1.2 h' hl')
+        (fun sa' s1' h' hl' hj' hag' hv' => vcode_of_processCard B F J hF ft hJ L (by have := hlb.len; omega) hc.1.2 h' hl'
+          (by rw [hj']; exact hjb) hag' hv') hc.1.1 h4 hlb hag1 (vpre_back hv hvr)
       rw [hnone] at k5
       simp only at k5
       rw [hdb] at k5
-      obtain ⟨hl2, hd2, hcs⟩ := bcodes_of_processFunctionCards d cs (L ++ [(n, d)]) hc.2 (i + 1) s1 s' h3 k5.2 hd1 hsd1
+      obtain ⟨hl2, hd2, hcs⟩ := bcodes_of_processFunctionCards d cs (L ++ [(n, d)]) hc.2 (i + 1) s1 s' h3 k5.2 hd1 hsd1 hj1
         (hag.weaken (by omega)) hv
       rw [esb] at k1
       rw [k3] at hcs
@@ -628,10 +1009,12 @@ theorem bcodes_of_processFunctionCards (d : Int) :
 
 end
 
-theorem compileUnit_mainS {unit : Array FunctionIr} {sf : CState} (h : compileUnit unit {} = .ok ((), sf))
-    (hargs : unit[0]!.arguments = []) (hst : isBlock 1 [] unit[0]!.cards = true)
+theorem compileUnit_mainS {ft : Feat} (hrepX : RepXAll ft) {unit : Array FunctionIr} {sf : CState}
+    (h : compileUnit unit {} = .ok ((), sf))
+    (hJ : ∀ g fd, ft.lookup g = some fd → ∃ r, look (jumpTableOf unit.toList) g = some r)
+    (hargs : unit[0]!.arguments = []) (hst : isBlock ft 1 [] unit[0]!.cards = true)
     (hB : sf.bytecode.size < 4294967296) (hV : sf.varIds.length < 4294967296) :
-    ∃ mainEnd, BCodes sf.bytecode sf.varIds 1 [] unit[0]!.cards 0 mainEnd ∧
+    ∃ mainEnd, BCodes sf.bytecode sf.varIds (jumpTableOf unit.toList) 1 [] unit[0]!.cards 0 mainEnd ∧
       (∀ j, j < (blockCtx 1 [] unit[0]!.cards).length → sf.bytecode.getD (mainEnd + j) 0 = op.pop) ∧
       sf.bytecode.getD (mainEnd + (blockCtx 1 [] unit[0]!.cards).length) 0 = op.exit ∧
       mainEnd + (blockCtx 1 [] unit[0]!.cards).length < sf.bytecode.size ∧ VInv sf := by
@@ -643,7 +1026,10 @@ theorem compileUnit_mainS {unit : Array FunctionIr} {sf : CState} (h : compileUn
   · obtain ⟨_, _, h1, _⟩ := bind_ok.1 h
     simp at h1
   · obtain ⟨_, s1, h1, h⟩ := bind_ok.1 h
-    have e1 := addFunctions_ok _ h1
+    have e1 := addFunctions_okS _ h1
+    have ej1 : s1.jumpTable = jumpTableOf unit.toList := by
+      have := ((addFunctions_ok _ _ _).1 h1).2.2
+      rw [this]; simp
     obtain ⟨_, s2, h2, h⟩ := bind_ok.1 h
     simp only [modify_run, Except.ok.injEq, Prod.mk.injEq, true_and] at h2
     obtain ⟨_, s3, h3, h⟩ := bind_ok.1 h
@@ -686,8 +1072,11 @@ theorem compileUnit_mainS {unit : Array FunctionIr} {sf : CState} (h : compileUn
       ((((v6.trans (scopeEnd_vr.run _ _ _ h7)).trans ((processCard_vr .abort).run _ _ _ h8)).trans
         ((compileFunctions_vr _).run _ _ _ h9)).trans v10).trans ((pushInstr_vr _).run _ _ _ h11)
     obtain ⟨t, ht⟩ := v5f.ids
-    obtain ⟨hl5, hd5, hcs⟩ := bcodes_of_processFunctionCards sf.bytecode sf.varIds hB hF 1 _ [] hst 0 s4 s5 h5 hl4
-      (by unfold curDepth; rw [hsd4]; rfl) (by rw [hsd4]; exact List.cons_ne_nil _ _) ⟨x5f.size_le, fun i _ hi => x5f.pref i hi⟩ ⟨t, ht⟩
+    have hj4 : s4.jumpTable = jumpTableOf unit.toList := by rw [← h4, ← h3, ← h2]; exact ej1
+    obtain ⟨hl5, hd5, hcs⟩ := bcodes_of_processFunctionCards sf.bytecode sf.varIds (jumpTableOf unit.toList) hB hF ft
+      (hrepX _ _ _ hB hF) hJ 1 _ [] hst 0 s4 s5 h5 hl4
+      (by unfold curDepth; rw [hsd4]; rfl) (by rw [hsd4]; exact List.cons_ne_nil _ _) hj4
+      ⟨x5f.size_le, fun i _ hi => x5f.pref i hi⟩ ⟨t, ht⟩
     rw [hb4] at hcs
     -- the `Pop`s of the locals and the `Exit` after the cards of `main`
     have hsd6 : s6.scopeDepth = [1] := by rw [← h6, hd5, hsd4]
@@ -728,12 +1117,13 @@ theorem compileUnit_mainS {unit : Array FunctionIr} {sf : CState} (h : compileUn
 
 /-- the layout of a compiled program whose `main` uses locals: the code of the cards of `main` from
     address 0, one `Pop` per local, then `Exit` -/
-theorem compile_mainS {m std : Module} {limit : Nat} {p : Program} (h : compile m std limit = .ok p)
+theorem compile_mainS {ft : Feat} (hrepX : RepXAll ft) (hfns : ft.fns = []) {m std : Module} {limit : Nat} {p : Program}
+    (h : compile m std limit = .ok p)
     {i : Nat} {nf : String × Func}
     (hi : m.functions.findIdx? (fun p => p.1 == "main") = some i) (hf : m.functions[i]? = some nf)
-    (hargs : nf.2.arguments = []) (hst : isBlock 1 [] nf.2.cards = true)
+    (hargs : nf.2.arguments = []) (hst : isBlock ft 1 [] nf.2.cards = true)
     (hB : p.bytecode.size < 4294967296) (hV : p.varIds.length < 4294967296) :
-    ∃ mainEnd, BCodes p.bytecode p.varIds 1 [] nf.2.cards 0 mainEnd ∧
+    ∃ J mainEnd, BCodes p.bytecode p.varIds J 1 [] nf.2.cards 0 mainEnd ∧
       (∀ j, j < (blockCtx 1 [] nf.2.cards).length → p.bytecode.getD (mainEnd + j) 0 = op.pop) ∧
       p.bytecode.getD (mainEnd + (blockCtx 1 [] nf.2.cards).length) 0 = op.exit ∧
       mainEnd + (blockCtx 1 [] nf.2.cards).length < p.bytecode.size ∧
@@ -748,10 +1138,11 @@ theorem compile_mainS {m std : Module} {limit : Nat} {p : Program} (h : compile 
       simp only [Except.ok.injEq] at h
       subst h
       obtain ⟨e1, e2⟩ := intoIrStream_main hunit hi hf
-      obtain ⟨mainEnd, c1, c2, c3, c4, c5⟩ := compileUnit_mainS (unit := unit) (sf := s) hs (by rw [e1, hargs])
+      obtain ⟨mainEnd, c1, c2, c3, c4, c5⟩ := compileUnit_mainS hrepX (unit := unit) (sf := s) hs
+        (fun g fd hl => by simp [Feat.lookup, hfns] at hl) (by rw [e1, hargs])
         (by rw [e2, hst]) hB hV
       rw [e2] at c1 c2 c3 c4
-      exact ⟨mainEnd, c1, c2, c3, c4, pairwise_inj (f := fun (p : UInt32 × Nat) => p.2) c5.inj⟩
+      exact ⟨_, mainEnd, c1, c2, c3, c4, pairwise_inj (f := fun (p : UInt32 × Nat) => p.2) c5.inj⟩
 
 
 end Cao.Compiler
